@@ -681,6 +681,7 @@ func checkC18(p *core.Program, r *core.Report) {
 
 	// the localized category name of a result is part of what Results.Save stores: a Save that keeps the old entry when
 	// value and category are unchanged keeps the category name of the previous language (imported from C07/R5)
+	r.Rule("R9", "the choice of language is getText's alone: no call of Run.GetText / GetTextArray in the action and router packages is control-dependent on a test that reads a language (Contact.Language, Flow.Language, Environment.DefaultLanguage / AllowedLanguages) — a fast path `contact language == flow language` skips the translation for a contact whose language is not allowed and who must get the environment's default language")
 	r.Rule("R5", "a saved result always replaces the stored one (imported from C07/R5): category_localized follows the language in force at the latest routing even when value and category did not change")
 	importObligations(p, r, "C07", map[string]bool{"R5": true}, "R5", "the result kept in the run carries the category name of an earlier language")
 	r.Rule("R7", "translated case arguments are taken when they are as many as the case's own arguments (imported from C07/R9): the count they are compared with is the count of the base arguments")
@@ -865,6 +866,24 @@ func c18R3(p *core.Program, r *core.Report) {
 		}
 		sort.Strings(uuidOf)
 		uses = append(uses, use{owner, key, cs.Pos(), uuidOf})
+		// R9: whether the lookup happens is not decided by a language: the choice of language is getText's alone
+		langCond := ""
+		for _, ce := range core.MayConds(cs.Instr.Block()) {
+			for w := range core.BackSlice(ce.Cond, func(*ssa.Call) bool { return true }) {
+				c, isCall := w.(*ssa.Call)
+				if !isCall {
+					continue
+				}
+				if o := core.CalleeObj(&c.Call); o != nil {
+					switch o.Name() {
+					case "Language", "DefaultLanguage", "AllowedLanguages":
+						langCond = core.ObjName(o) + " (" + p.Pos(ce.If.Pos()) + ")"
+					}
+				}
+			}
+		}
+		r.Check(langCond == "", "R9", core.FuncName(cs.Caller)+"/"+key+"/lookup-not-decided-by-a-language", p.Pos(cs.Pos()), "no language test decides whether the translation is looked up",
+			"the lookup of `"+key+"` is skipped or taken depending on "+langCond+": the documented fallback (contact language if allowed, else the environment's default, then the base language) is getText's to apply — a contact whose own language is the flow's but is not allowed must get the default language's translation")
 	}
 	r.Require("runtime_localization_lookups", len(uses), 5)
 	// forward: each use is declared on the owner (or, for a base type, on some struct embedding it), or listed
